@@ -146,7 +146,7 @@ def select_plans(plans, tier, rng):
     for p in faulty:
         f = p["fault"]
         groups.setdefault((f["p"], f["sys"], f["k"], f["err"], outcome_class(p)), []).append(p)
-    per = 3 if tier == "quick" else 24
+    per = 3 if tier == "quick" else 16
     chosen = list(nofault)
     for k in sorted(groups, key=str):
         g = sorted(groups[k], key=plan_key)
@@ -175,7 +175,7 @@ def concretise(plan, rundir, variant, idx):
     dplan = {"bin": binp, "args": ARGS[:cfg["nargs"]], "env": ENVS[:cfg["nenv"]] if cfg["nenv"] else None,
              "cwd": cwd, "uid": os.getuid() if cfg["uid"] == "own" else None,
              "gid": os.getgid() if cfg["gid"] == "own" else None, "pgroup": 0 if cfg["pg"] == "own" else None,
-             "pre_exec": list(cfg["pre"]), "open": [], "wait": "try" if idx % 5 == 2 else True}
+             "pre_exec": list(cfg["pre"]), "open": [], "wait": "try" if idx % 10 == 2 else True}
     for s in range(3):
         m = io[s]
         if m == "inherit":
@@ -549,9 +549,12 @@ def run(tier):
         core.log("%s: %d real runs %.1fs, SpawnTrace judge %.1fs" % (variant, len(runs), t2 - t1, time.time() - t2))
         return info, jobs, runs, verdicts, jres
 
+    t0 = time.time()
     with concurrent.futures.ThreadPoolExecutor(max_workers=4) as ex:
         vf = {v: ex.submit(variant_work, v, chk.seed) for v in VARIANTS}
         vres = {v: vf[v].result() for v in VARIANTS}
+    core.log("all variants built, executed and judged %.1fs (includes waiting for the shared cargo lock)" % (time.time() - t0))
+    t0 = time.time()
     for variant in VARIANTS:
         info, jobs, runs, verdicts, jres = vres[variant]
         if MODEL_OF[variant] == variant:
@@ -587,7 +590,10 @@ def run(tier):
             if allruns % 97 == 1:
                 chk.sample({"variant": variant, "cfg": plan["cfg"], "fault": plan["fault"],
                             "returns": v["returns"], "execd": v["execd"], "failed": v["failed"]})
+    core.log("verdicts and conformance evaluated %.1fs" % (time.time() - t0))
+    t0 = time.time()
     chk.extra["judge_selftest"] = {k: v["ok"] for k, v in judge_selftest(chk).items()}
+    core.log("judge self-test %.1fs" % (time.time() - t0))
     chk.nontrivial = nontrivial
     chk.rule = ("one evaluation = one execution of the real Command::spawn (driver spawnd, with and without feature "
                 "`start`) under the ptrace tracer along a TLC-generated configuration x fault plan, judged by TLC "
@@ -604,7 +610,7 @@ def run(tier):
     chk.assumptions = [
         "model checking is exhaustive over the configuration x single-fault space of Spawn_MC.tla (every stdio "
         "combination on a base command; the other dimensions with two stdio tables); real executions cover every "
-        "fault-free configuration of that space and, per (fault, predicted outcome) class, %d configurations" % (3 if tier == "quick" else 24),
+        "fault-free configuration of that space and, per (fault, predicted outcome) class, %d configurations" % (3 if tier == "quick" else 16),
         "one injected failure per run; injected failures suppress the call (close: executed, result overwritten)",
         "the tracer's log order is causal per task; across tasks only through system-call stops, so 'the child had "
         "exec'ed when Ok was returned' is checked as 'the child did exec' (timing is checked in the model only)",
